@@ -14,11 +14,14 @@
 #include "common.hpp"
 #include "C18_iface.hpp"
 #include <cxxabi.h>
+#include <arpa/inet.h>
 #include <deque>
+#include <netinet/in.h>
 #include <dlfcn.h>
 #include <elf.h>
 #include <errno.h>
 #include <link.h>
+#include <locale>
 #include <pthread.h>
 #include <sched.h>
 #include <semaphore.h>
@@ -156,8 +159,57 @@ static std::vector<Seg> g_segs;
 static uintptr_t g_bias = 0;
 static char* g_elf = 0;
 
+// Writable data (.data/.bss, i.e. writable PT_LOAD minus the RELRO part) of every shared object other than this binary:
+// state that lives in an UNINSTRUMENTED library.  Its writers are invisible to the tracer, so any such byte that instrumented code
+// (libtins, workloads) touches is treated as WRITTEN: two workloads touching the same byte are dependent ("foreign-static").
+struct Foreign { uintptr_t lo, hi, base; char lib[40]; };
+static Foreign g_foreign[96];
+static int g_nforeign = 0;
+static uintptr_t g_foreign_min = ~(uintptr_t)0, g_foreign_max = 0;
+// Audited allow-list: foreign objects that libtins may read from several threads (see notes/C18.md for the reasons)
+struct Allowed { uintptr_t lo, hi; const char* what; };
+static Allowed g_allowed[16];
+static int g_nallowed = 0;
+
+NOSAN_INL static int foreign_index(uintptr_t a) {
+    if (a < g_foreign_min || a >= g_foreign_max) return -1;
+    for (int i = 0; i < g_nforeign; ++i) if (a >= g_foreign[i].lo && a < g_foreign[i].hi) return i;
+    return -1;
+}
+NOSAN_INL static int allowed_index(uintptr_t a) {
+    for (int i = 0; i < g_nallowed; ++i) if (a >= g_allowed[i].lo && a < g_allowed[i].hi) return i;
+    return -1;
+}
+NOSAN_INL static bool foreign_static(uintptr_t a) { return foreign_index(a) >= 0 && allowed_index(a) < 0; }
+
+static void add_foreign(struct dl_phdr_info* info) {
+    const char* nm = info->dlpi_name ? info->dlpi_name : "";
+    if (!*nm || strstr(nm, "linux-vdso")) return;
+    const char* base = strrchr(nm, '/');
+    base = base ? base + 1 : nm;
+    uintptr_t rlo = 0, rhi = 0;
+    for (int i = 0; i < info->dlpi_phnum; ++i)
+        if (info->dlpi_phdr[i].p_type == PT_GNU_RELRO) { rlo = info->dlpi_addr + info->dlpi_phdr[i].p_vaddr; rhi = rlo + info->dlpi_phdr[i].p_memsz; }
+    rhi = (rhi + 4095) & ~(uintptr_t)4095;          // RELRO protection is page granular
+    for (int i = 0; i < info->dlpi_phnum; ++i) {
+        const ElfW(Phdr)& ph = info->dlpi_phdr[i];
+        if (ph.p_type != PT_LOAD || !(ph.p_flags & PF_W)) continue;
+        uintptr_t lo = info->dlpi_addr + ph.p_vaddr, hi = lo + ph.p_memsz;
+        if (rhi > lo && rlo <= lo) lo = std::min(rhi, hi);      // skip the read-only-after-relocation prefix
+        if (lo >= hi || g_nforeign >= 96) continue;
+        Foreign& f = g_foreign[g_nforeign++];
+        f.lo = lo; f.hi = hi; f.base = info->dlpi_addr;
+        size_t n = 0;
+        for (; base[n] && n < sizeof f.lib - 1; ++n) { f.lib[n] = base[n]; if (n >= 2 && base[n] == 'o' && base[n - 1] == 's' && base[n - 2] == '.') { ++n; break; } }
+        f.lib[n] = 0;
+        g_foreign_min = std::min(g_foreign_min, lo);
+        g_foreign_max = std::max(g_foreign_max, hi);
+    }
+}
+
 static int phdr_cb(struct dl_phdr_info* info, size_t, void* data) {
     int* first = static_cast<int*>(data);
+    if (!*first) add_foreign(info);
     if (*first) {
         *first = 0;
         g_bias = info->dlpi_addr;
@@ -248,9 +300,11 @@ static std::string func_name(uintptr_t pc, bool with_off = false) {
     if (with_off) { char b[32]; snprintf(b, sizeof b, "+0x%lx", (unsigned long)(pc - s->addr)); r += b; }
     return r;
 }
+static const char* nr_token_name(uintptr_t a);
 // symbolic, ASLR-independent name of a data location
 static std::string location_name(uintptr_t a, bool* writable = 0) {
     if (writable) *writable = true;
+    if (const char* nr0 = nr_token_name(a)) return std::string("non-reentrant-call:") + nr0;
     for (size_t i = 0; i < g_segs.size(); ++i)
         if (a >= g_segs[i].lo && a < g_segs[i].hi) {
             if (writable) *writable = g_segs[i].writable;
@@ -258,6 +312,16 @@ static std::string location_name(uintptr_t a, bool* writable = 0) {
             if (s) return strip_args(demangle(s->name));
             return g_segs[i].writable ? "binary:rw-data" : "binary:ro-data";
         }
+    if (const char* nr = nr_token_name(a)) return std::string("non-reentrant-call:") + nr;
+    {
+        int fi = foreign_index(a);
+        if (fi >= 0 && allowed_index(a) < 0) {
+            char buf[96];
+            snprintf(buf, sizeof buf, "foreign-static:%s+0x%lx", g_foreign[fi].lib, (unsigned long)(a - g_foreign[fi].base));
+            return buf;
+        }
+        if (fi >= 0) return std::string("lib-allowlisted:") + g_allowed[allowed_index(a)].what;
+    }
     uintptr_t lo; Block b;
     if (find_block(a, lo, b)) {
         if (b.run) return "heap:run-private";
@@ -280,7 +344,7 @@ static std::string location_name(uintptr_t a, bool* writable = 0) {
 
 // ====================================================================== 3. stage-1 footprint recorder
 struct ByteInfo {
-    uint8_t flags;         // 1 = read, 2 = written
+    uint8_t flags;         // 1 = read, 2 = written, 4 = foreign static (uninstrumented library's writable data: counted as written)
     uint8_t wstate;        // 0 none, 1 written outside any guard region, 2 written only inside region of guard `wg`, 3 mixed
     uint16_t wg;           // local guard index
     uint64_t checked;      // guards (bitmask over local indices) already checked by the thread at the FIRST access of the run(s)
@@ -288,7 +352,7 @@ struct ByteInfo {
 };
 typedef std::map<uintptr_t, ByteInfo, std::less<uintptr_t>, LibcAlloc<std::pair<const uintptr_t, ByteInfo> > > ByteMap;
 
-struct RunCounters { uint64_t priv_stack, priv_heap, shared_r, shared_w, range_ops, guard_ops; };
+struct RunCounters { uint64_t priv_stack, priv_heap, shared_r, shared_w, range_ops, guard_ops, foreign, allowlisted, nr_calls; };
 
 struct Recorder {
     uintptr_t stack_lo, stack_hi;
@@ -302,6 +366,7 @@ struct Recorder {
     uintptr_t c_lo, c_hi; bool c_priv;
 };
 static Recorder REC;
+static uintptr_t g_bin_lo = 0, g_bin_hi = 0;      // address range of the instrumented binary (libtins + harness)
 
 NOSAN_INL static int guard_index(uintptr_t g, bool add) {
     for (int i = 0; i < REC.nguards; ++i) if (REC.guards[i] == g) return i;
@@ -326,7 +391,13 @@ NOSAN static void rec_shared(uintptr_t a, size_t n, bool w, uintptr_t pc) {
             it = REC.run_bytes->insert(std::make_pair(b, bi)).first;
         }
         ByteInfo& bi = it->second;
-        if (w) {
+        bool as_write = w;
+        if (b >= g_foreign_min && b < g_foreign_max && foreign_index(b) >= 0 && pc >= g_bin_lo && pc < g_bin_hi) {
+            if (allowed_index(b) < 0) { as_write = true; bi.flags |= 4; if (i == 0) REC.c.foreign++; }
+            else if (i == 0) REC.c.allowlisted++;
+        }
+        if (!w && as_write) { if (!(bi.flags & 1)) bi.pc_r = pc; bi.flags |= 1; }
+        if (as_write) {
             if (!(bi.flags & 2)) bi.pc_w = pc;
             bi.flags |= 2;
             if (REC.nregion) {
@@ -476,6 +547,7 @@ NOSAN static void sched_access(uintptr_t a, size_t n, bool w, uintptr_t pc) {
     }
     if (!in_conflict(a, n)) return;
     S->points++;
+    if (!w && foreign_static(a)) w = true;       // the library's own writers are invisible: count the touch as a write
     me->pend.addr = a; me->pend.size = (uint32_t)n; me->pend.kind = w ? K_WRITE : K_READ; me->pend.pc = pc;
     me->pend.nbt = capture_bt(me->pend.bt, 10, me);
     check_race(me);
@@ -605,7 +677,6 @@ NOSAN void __sanitizer_cov_store16(void* a) { ON_ACCESS(a, 16, true); }
 }
 
 NOSAN_INL static bool observing() { return g_mode && !t_in && t_role; }
-static uintptr_t g_bin_lo = 0, g_bin_hi = 0;      // address range of the instrumented binary (libtins + harness)
 NOSAN static void on_range(const void* p, size_t n, bool w, uintptr_t pc) {
     if (!n) return;
     if (t_role == 1) { if (g_mode == 1) { REC.c.range_ops++; rec_access((uintptr_t)p, n, w, pc); } }
@@ -736,6 +807,174 @@ NOSAN static void guard_done(__cxxabiv1::__guard* gp, bool ok) {
 }
 NOSAN void __cxa_guard_release(__cxxabiv1::__guard* gp) _GLIBCXX_NOTHROW { guard_done(gp, true); }
 NOSAN void __cxa_guard_abort(__cxxabiv1::__guard* gp) _GLIBCXX_NOTHROW { guard_done(gp, false); }
+}
+
+// ====================================================================== 5b. documented non-reentrant entry points of uninstrumented libraries
+// Link-time interposition (this binary defines the symbol, forwards with dlsym(RTLD_NEXT)).  A call from instrumented code is recorded
+// as a WRITE of a per-function token byte: two workloads calling the same non-reentrant function are dependent, the call is a
+// scheduling point of stage 2 and two threads standing in front of it are reported (race:non-reentrant-call:<function>:<frames>).
+// The OpenSSL one-shot digests are non-reentrant only with a NULL output pointer (result in a process-wide static array).
+enum { NR_HMAC_NULL = 0, NR_SHA1_NULL, NR_SHA224_NULL, NR_SHA256_NULL, NR_SHA384_NULL, NR_SHA512_NULL, NR_MD5_NULL, NR_MD4_NULL, NR_RIPEMD160_NULL,
+       NR_INET_NTOA, NR_GETHOSTBYNAME, NR_STRTOK, NR_LOCALTIME, NR_GMTIME, NR_CTIME, NR_ASCTIME, NR_STRERROR, NR_ENVIRON, NR_RAND, NR_COUNT };
+static const char* const kNrNames[NR_COUNT] = {"HMAC(md=NULL)", "SHA1(md=NULL)", "SHA224(md=NULL)", "SHA256(md=NULL)", "SHA384(md=NULL)", "SHA512(md=NULL)",
+    "MD5(md=NULL)", "MD4(md=NULL)", "RIPEMD160(md=NULL)", "inet_ntoa", "gethostbyname", "strtok", "localtime", "gmtime", "ctime", "asctime", "strerror",
+    "setenv/getenv", "rand/srand"};
+static uint8_t g_nr_token[NR_COUNT];
+static const char* nr_token_name(uintptr_t a) {
+    uintptr_t lo = (uintptr_t)&g_nr_token[0];
+    return (a >= lo && a < lo + NR_COUNT) ? kNrNames[a - lo] : 0;
+}
+NOSAN static void nr_call(int id, bool write, uintptr_t pc) {
+    if (!observing() || pc < g_bin_lo || pc >= g_bin_hi) return;
+    if (t_role == 1 && g_mode == 1) { InGuard ig; REC.c.nr_calls++; }
+    on_range(&g_nr_token[id], 1, write, pc);
+}
+// The result of such a call lives in a static buffer of the library, which the library has just written: reported as a written range at
+// the call site AFTER the call (a second scheduling point: "result valid, about to be consumed").  Needed because the consumer's
+// reads are often invisible: a fixed-size compare/copy of the result is expanded inline by the backend without a trace callback.
+NOSAN static void nr_result(const void* p, size_t n, uintptr_t pc) {
+    if (!p || !n || !observing() || pc < g_bin_lo || pc >= g_bin_hi) return;
+    on_range(p, n, true, pc);
+}
+NOSAN static void* nr_real(const char* name, void** slot) {
+    if (!*slot) { InGuard ig; *slot = dlsym(RTLD_NEXT, name); }
+    return *slot;
+}
+#define NR_PC ((uintptr_t)__builtin_return_address(0))
+struct hostent; struct tm; struct pcap;
+extern "C" {
+NOSAN unsigned char* HMAC(const void* md, const void* key, int key_len, const unsigned char* d, size_t n, unsigned char* out, unsigned int* out_len) {
+    typedef unsigned char* (*F)(const void*, const void*, int, const unsigned char*, size_t, unsigned char*, unsigned int*);
+    static void* real = 0;
+    if (!out) nr_call(NR_HMAC_NULL, true, NR_PC);
+    unsigned int len = 0;
+    unsigned char* r = ((F)nr_real("HMAC", &real))(md, key, key_len, d, n, out, out_len ? out_len : &len);
+    if (!out) nr_result(r, out_len ? *out_len : len, NR_PC);
+    return r;
+}
+#define NR_DIGEST(NAME, ID, LEN)                                                                        \
+    NOSAN unsigned char* NAME(const unsigned char* d, size_t n, unsigned char* md) {               \
+        typedef unsigned char* (*F)(const unsigned char*, size_t, unsigned char*);                 \
+        static void* real = 0;                                                                     \
+        if (!md) nr_call(ID, true, NR_PC);                                                         \
+        unsigned char* r = ((F)nr_real(#NAME, &real))(d, n, md);                                   \
+        if (!md) nr_result(r, LEN, NR_PC);                                                         \
+        return r;                                                                                  \
+    }
+NR_DIGEST(SHA1, NR_SHA1_NULL, 20)
+NR_DIGEST(SHA224, NR_SHA224_NULL, 28)
+NR_DIGEST(SHA256, NR_SHA256_NULL, 32)
+NR_DIGEST(SHA384, NR_SHA384_NULL, 48)
+NR_DIGEST(SHA512, NR_SHA512_NULL, 64)
+NR_DIGEST(MD5, NR_MD5_NULL, 16)
+NR_DIGEST(MD4, NR_MD4_NULL, 16)
+NR_DIGEST(RIPEMD160, NR_RIPEMD160_NULL, 20)
+NOSAN char* inet_ntoa(struct in_addr in) {
+    typedef char* (*F)(struct in_addr);
+    static void* real = 0;
+    nr_call(NR_INET_NTOA, true, NR_PC);
+    char* r = ((F)nr_real("inet_ntoa", &real))(in);
+    nr_result(r, 16, NR_PC);
+    return r;
+}
+NOSAN struct hostent* gethostbyname(const char* name) {
+    typedef struct hostent* (*F)(const char*);
+    static void* real = 0;
+    nr_call(NR_GETHOSTBYNAME, true, NR_PC);
+    struct hostent* r = ((F)nr_real("gethostbyname", &real))(name);
+    nr_result(r, 32, NR_PC);
+    return r;
+}
+NOSAN char* strtok(char* str, const char* delim) {
+    typedef char* (*F)(char*, const char*);
+    static void* real = 0;
+    nr_call(NR_STRTOK, true, NR_PC);
+    return ((F)nr_real("strtok", &real))(str, delim);
+}
+NOSAN struct tm* localtime(const time_t* t) {
+    typedef struct tm* (*F)(const time_t*);
+    static void* real = 0;
+    nr_call(NR_LOCALTIME, true, NR_PC);
+    struct tm* r = ((F)nr_real("localtime", &real))(t);
+    nr_result(r, 56, NR_PC);
+    return r;
+}
+NOSAN struct tm* gmtime(const time_t* t) {
+    typedef struct tm* (*F)(const time_t*);
+    static void* real = 0;
+    nr_call(NR_GMTIME, true, NR_PC);
+    struct tm* r = ((F)nr_real("gmtime", &real))(t);
+    nr_result(r, 56, NR_PC);
+    return r;
+}
+NOSAN char* ctime(const time_t* t) {
+    typedef char* (*F)(const time_t*);
+    static void* real = 0;
+    nr_call(NR_CTIME, true, NR_PC);
+    char* r = ((F)nr_real("ctime", &real))(t);
+    nr_result(r, 26, NR_PC);
+    return r;
+}
+NOSAN char* asctime(const struct tm* t) {
+    typedef char* (*F)(const struct tm*);
+    static void* real = 0;
+    nr_call(NR_ASCTIME, true, NR_PC);
+    char* r = ((F)nr_real("asctime", &real))(t);
+    nr_result(r, 26, NR_PC);
+    return r;
+}
+NOSAN char* strerror(int e) {
+    typedef char* (*F)(int);
+    static void* real = 0;
+    nr_call(NR_STRERROR, true, NR_PC);
+    return ((F)nr_real("strerror", &real))(e);
+}
+// the environment: readers conflict only with a writer (getenv after setenv)
+NOSAN char* getenv(const char* name) {
+    typedef char* (*F)(const char*);
+    static void* real = 0;
+    nr_call(NR_ENVIRON, false, NR_PC);
+    return ((F)nr_real("getenv", &real))(name);
+}
+NOSAN int setenv(const char* name, const char* value, int overwrite) {
+    typedef int (*F)(const char*, const char*, int);
+    static void* real = 0;
+    nr_call(NR_ENVIRON, true, NR_PC);
+    return ((F)nr_real("setenv", &real))(name, value, overwrite);
+}
+NOSAN int unsetenv(const char* name) {
+    typedef int (*F)(const char*);
+    static void* real = 0;
+    nr_call(NR_ENVIRON, true, NR_PC);
+    return ((F)nr_real("unsetenv", &real))(name);
+}
+NOSAN int putenv(char* string) {
+    typedef int (*F)(char*);
+    static void* real = 0;
+    nr_call(NR_ENVIRON, true, NR_PC);
+    return ((F)nr_real("putenv", &real))(string);
+}
+NOSAN int rand(void) {
+    typedef int (*F)(void);
+    static void* real = 0;
+    nr_call(NR_RAND, true, NR_PC);
+    return ((F)nr_real("rand", &real))();
+}
+NOSAN void srand(unsigned seed) {
+    typedef void (*F)(unsigned);
+    static void* real = 0;
+    nr_call(NR_RAND, true, NR_PC);
+    ((F)nr_real("srand", &real))(seed);
+}
+// pcap_geterr returns the handle's own error buffer: non-reentrant only when two threads use ONE handle (a handle libtins shares
+// behind the user's back): the location is the handle itself
+NOSAN char* pcap_geterr(struct pcap* handle) {
+    typedef char* (*F)(struct pcap*);
+    static void* real = 0;
+    uintptr_t pc = NR_PC;
+    if (handle && observing() && pc >= g_bin_lo && pc < g_bin_hi) on_range(handle, 1, true, pc);
+    return ((F)nr_real("pcap_geterr", &real))(handle);
+}
 }
 
 // ====================================================================== 6. (de)serialisation + fork
@@ -923,6 +1162,19 @@ static std::set<uintptr_t> g_ignored_bytes;
 static void compute_ignored() {
     uintptr_t a = (uintptr_t)&mc::g_live_allocs;
     for (size_t i = 0; i < sizeof(mc::g_live_allocs); ++i) g_ignored_bytes.insert(a + i);
+}
+
+// Audited allow-list of library objects that instrumented code may touch from several threads.
+static void allow(const void* p, size_t n, const char* what) {
+    if (g_nallowed < 16 && !getenv("C18_NO_ALLOWLIST")) { g_allowed[g_nallowed].lo = (uintptr_t)p; g_allowed[g_nallowed].hi = (uintptr_t)p + n; g_allowed[g_nallowed].what = what; ++g_nallowed; }
+}
+static void setup_allowlist() {
+    // 1. libstdc++'s classic-locale std::ctype<char> facet object (static storage inside libstdc++.so): the inline
+    //    std::ctype<char>::widen()/narrow() of <bits/locale_facets.h> read its _M_widen_ok/_M_widen[]/_M_narrow[] cache members from
+    //    whatever code uses std::setfill / os.widen(); libstdc++ fills the cache with idempotent values and documents the classic
+    //    locale's facets as usable from several threads.  (On the current tree no instrumented code touches it at all.)
+    const std::ctype<char>& ct = std::use_facet<std::ctype<char> >(std::locale::classic());
+    allow(&ct, sizeof ct, "libstdc++ classic std::ctype<char> facet (widen/narrow cache)");
 }
 
 struct Conflict {
@@ -1141,6 +1393,7 @@ static ExploreStats explore(const std::vector<int>& wls, const std::vector<uintp
                 std::string x = fa, y = fb;
                 if (y < x) std::swap(x, y);
                 std::string sig = std::string("race:") + kind + ":" + loc + ":" + x + "|" + y;
+                if (loc.compare(0, 15, "foreign-static:") == 0 || loc.compare(0, 19, "non-reentrant-call:") == 0) sig = "race:" + loc + ":" + x + "|" + y;
                 std::string det = "thread " + str(rc.ta) + " (" + c18::kWorkloads[wls[rc.ta]].name + ") about to " +
                                   (rc.a.kind == K_WRITE ? "write " : "read ") + str(rc.a.size) + " byte(s) at " + loc + ": " + sa +
                                   "\nthread " + str(rc.tb) + " (" + c18::kWorkloads[wls[rc.tb]].name + ") suspended before " +
@@ -1204,7 +1457,8 @@ static ExploreStats explore(const std::vector<int>& wls, const std::vector<uintp
 // ====================================================================== 10. jobs
 static std::string json_counts(const RunCounters& c) {
     return "{\"private_stack\":" + str(c.priv_stack) + ",\"private_heap\":" + str(c.priv_heap) + ",\"shared_read\":" + str(c.shared_r) +
-           ",\"shared_write\":" + str(c.shared_w) + ",\"range_ops\":" + str(c.range_ops) + ",\"guard_ops\":" + str(c.guard_ops) + "}";
+           ",\"shared_write\":" + str(c.shared_w) + ",\"range_ops\":" + str(c.range_ops) + ",\"guard_ops\":" + str(c.guard_ops) + ",\"foreign_static_touches\":" + str(c.foreign) +
+           ",\"allowlisted_library_touches\":" + str(c.allowlisted) + ",\"nonreentrant_calls\":" + str(c.nr_calls) + "}";
 }
 
 static bool all_footprints() {
@@ -1275,12 +1529,23 @@ static void report_stage1() {
     std::string tab = "{";
     bool seen_crc = false, seen_private_ranges = false, seen_registry = false;
     uint64_t tot_shared_reads = 0;
+    std::set<uintptr_t> foreign_bytes, allow_bytes;     // library statics touched by instrumented code: not allow-listed / allow-listed
+    std::set<std::string> nr_seen;                      // non-reentrant entry points called from instrumented code
     for (int w = 0; w < c18::kNumWorkloads; ++w) {
         const Footprint& f = FP[w];
         std::map<std::string, std::pair<uint64_t, uint64_t> > syms;     // name -> (bytes read, bytes written)
         uint64_t rbytes = 0, wbytes = 0;
         for (std::map<uintptr_t, PByte>::const_iterator it = f.bytes.begin(); it != f.bytes.end(); ++it) {
             std::string nm = location_name(it->first);
+            bool libtins_wl = c18::kWorkloads[w].kind == c18::LIBTINS || c18::kWorkloads[w].kind == c18::DESCENDANT;    // statistics: not the canaries
+            if (nm.compare(0, 15, "foreign-static:") == 0) {
+                // flag 4 = touched by instrumented code (counted as written); otherwise the library touched its own data through an
+                // interposed memcpy/memcmp (e.g. libstdc++ filling its ctype cache): its business
+                if (it->second.flags & 4) { nm = nm.substr(0, nm.find('+')); if (libtins_wl) foreign_bytes.insert(it->first); }
+                else nm = "lib:" + nm.substr(15, nm.find('+') - 15) + " (own writable data, touched by the library itself)";
+            }
+            if (nm.compare(0, 16, "lib-allowlisted:") == 0 && foreign_index(it->first) >= 0 && libtins_wl) allow_bytes.insert(it->first);
+            if (nm.compare(0, 19, "non-reentrant-call:") == 0 && libtins_wl) nr_seen.insert(nm.substr(19) + " <- " + func_name((it->second.pc_w ? it->second.pc_w : it->second.pc_r) - 1));
             if (it->second.flags & 1) { syms[nm].first++; rbytes++; }
             if (it->second.flags & 2) { syms[nm].second++; wbytes++; }
         }
@@ -1333,6 +1598,36 @@ static void report_stage1() {
     R.info["footprints"] = tab;
     R.info["nonvacuity"] = std::string("{\"crc_table_read\":") + (seen_crc ? "true" : "false") + ",\"private_ranges_read\":" +
                            (seen_private_ranges ? "true" : "false") + ",\"allocator_registry_nodes_read\":" + (seen_registry ? "true" : "false") + "}";
+    // library statics touched by libtins / the workloads, as merged ranges
+    for (int pass = 0; pass < 2; ++pass) {
+        const std::set<uintptr_t>& bs = pass ? allow_bytes : foreign_bytes;
+        std::string js = "[";
+        uintptr_t lo = 0, prev = 0;
+        for (std::set<uintptr_t>::const_iterator it = bs.begin();; ++it) {
+            bool end = it == bs.end();
+            if (lo && (end || *it != prev + 1 || foreign_index(*it) != foreign_index(prev))) {
+                int fi = foreign_index(lo);
+                char buf[200];
+                Dl_info di;
+                const char* near = (dladdr(reinterpret_cast<void*>(lo), &di) && di.dli_sname) ? di.dli_sname : "";
+                snprintf(buf, sizeof buf, "%s+0x%lx..0x%lx (%lu bytes)%s%s%s%s", fi >= 0 ? g_foreign[fi].lib : "?", (unsigned long)(lo - (fi >= 0 ? g_foreign[fi].base : 0)),
+                         (unsigned long)(prev + 1 - (fi >= 0 ? g_foreign[fi].base : 0)), (unsigned long)(prev + 1 - lo), *near ? " after " : "", near,
+                         pass ? " = " : "", pass ? g_allowed[allowed_index(lo)].what : "");
+                js += (js.size() > 1 ? "," : "") + jstr(buf);
+                lo = 0;
+            }
+            if (end) break;
+            if (!lo) lo = *it;
+            prev = *it;
+        }
+        R.info[pass ? "library_statics_allowlisted_touched" : "foreign_statics_touched"] = js + "]";
+    }
+    std::string nrj = "[";
+    for (std::set<std::string>::iterator it = nr_seen.begin(); it != nr_seen.end(); ++it) nrj += (nrj.size() > 1 ? "," : "") + jstr(*it);
+    R.info["nonreentrant_calls_seen"] = nrj + "]";
+    R.count("foreign_static_bytes_touched", foreign_bytes.size());
+    R.count("allowlisted_library_bytes_touched", allow_bytes.size());
+    R.count("nonreentrant_entry_points_called", nr_seen.size());
     R.count("tracer_alive", tot_shared_reads > 0 ? 1 : 0);
     R.count("nonvacuity_anchors_seen", (seen_crc ? 1 : 0) + (seen_private_ranges ? 1 : 0) + (seen_registry ? 1 : 0));
 }
@@ -1348,12 +1643,13 @@ static void job(int j) {
 
     // ---- canaries (job 0): racy pair must be found dependent, explored, race + divergence detected
     if (j == 0) {
-        int ca = -1, cb = -1, ga = -1, gb = -1, la = -1, lb = -1, sa = -1, sb = -1;
+        int ca = -1, cb = -1, ga = -1, gb = -1, la = -1, lb = -1, sa = -1, sb = -1, fa_ = -1, fb_ = -1;
         for (int w = 0; w < c18::kNumWorkloads; ++w) {
             if (c18::kWorkloads[w].kind == c18::CANARY_RACY) { if (ca < 0) ca = w; else cb = w; }
             if (c18::kWorkloads[w].kind == c18::CANARY_GUARDED) { if (ga < 0) ga = w; else gb = w; }
             if (c18::kWorkloads[w].kind == c18::CANARY_LOCKED) { if (la < 0) la = w; else lb = w; }
             if (c18::kWorkloads[w].kind == c18::CANARY_COPYSHARE) { if (sa < 0) sa = w; else sb = w; }
+            if (c18::kWorkloads[w].kind == c18::CANARY_FOREIGN) { if (fa_ < 0) fa_ = w; else fb_ = w; }
         }
         std::vector<int> pair; pair.push_back(ca); pair.push_back(cb);
         size_t ord = 0;
@@ -1424,6 +1720,32 @@ static void job(int j) {
         R.count("traces_validated_against_impl", ss.schedules);
         R.sample("{\"canary\":" + jstr(wl_names(sp)) + ",\"dependent\":" + (sconf.empty() ? "false" : "true") + ",\"location\":" +
                  jstr(sconf.empty() ? "" : location_name(sconf[0])) + ",\"schedules\":" + str(ss.schedules) + ",\"race\":" + jstr(ss.first_race_sig) + "}");
+        // foreign-static canary: gmtime() — a documented non-reentrant entry point whose result lives in libc's writable data: the pair must
+        // be dependent through the call token AND through the library's static buffer, race + divergence found
+        std::vector<int> fp2; fp2.push_back(fa_); fp2.push_back(fb_);
+        std::vector<uintptr_t> fconf = union_conflicts(fp2, 0);
+        bool has_token = false, has_static = false;
+        for (size_t i = 0; i < fconf.size(); ++i) {
+            std::string nm = location_name(fconf[i]);
+            if (nm == "non-reentrant-call:gmtime") has_token = true;
+            if (nm.compare(0, 23, "foreign-static:libc.so+") == 0) has_static = true;
+        }
+        ExploreStats fs;
+        if (!fconf.empty()) fs = explore(fp2, fconf, kBound, cap, false, false);
+        bool foreign_ok = has_token && has_static && fs.races > 0 && fs.divergences > 0 && fs.completed_bound == kBound;
+        R.count("foreign_canary_schedules", fs.schedules);
+        R.count("foreign_canary_conflict_bytes", fconf.size());
+        R.count("foreign_canary_races", fs.races);
+        R.count("foreign_canary_divergences", fs.divergences);
+        R.count("foreign_canary_detected", foreign_ok ? 1 : 0);
+        R.count("states", fs.schedules);
+        R.count("schedules", fs.schedules);
+        R.count("transitions", fs.points);
+        R.count("traces_validated_against_impl", fs.schedules);
+        R.sample("{\"canary\":" + jstr(wl_names(fp2)) + ",\"token\":" + (has_token ? "true" : "false") + ",\"library_static\":" + (has_static ? "true" : "false") +
+                 ",\"schedules\":" + str(fs.schedules) + ",\"race\":" + jstr(fs.first_race_sig) + ",\"divergence\":" + jstr(fs.first_div_sig) + "}");
+        if (!foreign_ok) { fprintf(stderr, "C18 BROKEN CHECK: the foreign-static canary (gmtime: state inside libc) was not detected (token=%d static=%d races=%llu divergences=%llu)\n",
+                                   (int)has_token, (int)has_static, (unsigned long long)fs.races, (unsigned long long)fs.divergences); guard_ok = false; }
         if (!share_ok) { fprintf(stderr, "C18 BROKEN CHECK: the copy-sharing canary (use count shared between copies) was not detected\n"); guard_ok = false; }
         if (!detected || !guard_ok) {
             fprintf(stderr, "C18 BROKEN CHECK: canary %s (racy canary: dependent=%d schedules=%llu races=%llu divergences=%llu; guarded canary: ordered=%zu "
@@ -1576,5 +1898,8 @@ int main(int argc, char** argv) {
     g_bin_lo = ~(uintptr_t)0;
     for (size_t i = 0; i < g_segs.size(); ++i) { g_bin_lo = std::min(g_bin_lo, g_segs[i].lo); g_bin_hi = std::max(g_bin_hi, g_segs[i].hi); }
     compute_ignored();
+    setup_allowlist();
+    if (getenv("C18_DEBUG"))
+        for (int i = 0; i < g_nforeign; ++i) fprintf(stderr, "foreign writable data: %s %lx..%lx (base %lx)\n", g_foreign[i].lib, (unsigned long)g_foreign[i].lo, (unsigned long)g_foreign[i].hi, (unsigned long)g_foreign[i].base);
     return run_main(argc, argv, 8, 16, job, replay);
 }
